@@ -154,6 +154,10 @@ func runChunks(prop string, chunks []chunk, tmp string, deadline time.Time, hash
 				os.Remove(out + ".cur")
 				mu.Lock()
 				results = append(results, r)
+				if r.crash && r.curRun >= c.from && r.curRun+1 < c.to {
+					// the worker died in the middle of its range: the rest is still to be explored
+					chunks = append(chunks, chunk{c.seed, r.curRun + 1, c.to})
+				}
 				mu.Unlock()
 			}
 		}(w)
